@@ -113,6 +113,9 @@ enum Spec {
     MustAccept(i128),
     MustReject,
     Unspecified,
+    /// outside the strict grammar of the statement but inside Go's (leading `+`, `.5s`, `1.s`, bare
+    /// `0`, micro-sign units): may be rejected; if it is accepted it denotes this value
+    IfAccepted(i128),
 }
 
 const UNITS: [(&str, i128); 8] = [("ns", 1), ("us", 1_000), ("\u{b5}s", 1_000), ("\u{3bc}s", 1_000), ("ms", 1_000_000), ("s", 1_000_000_000), ("m", 60_000_000_000), ("h", 3_600_000_000_000)];
@@ -188,8 +191,8 @@ fn classify(s: &str) -> Spec {
     if let Some(v) = parse(s, true) {
         return if v >= i64::MIN as i128 && v <= i64::MAX as i128 { Spec::MustAccept(v) } else { Spec::Unspecified };
     }
-    if parse(s, false).is_some() {
-        return Spec::Unspecified;
+    if let Some(v) = parse(s, false) {
+        return if v >= i64::MIN as i128 && v <= i64::MAX as i128 { Spec::IfAccepted(v) } else { Spec::Unspecified };
     }
     Spec::MustReject
 }
@@ -391,6 +394,7 @@ pub fn run(run: &mut Run) {
                 Spec::MustAccept(_) => "must-accept",
                 Spec::MustReject => "must-reject",
                 Spec::Unspecified => "unspecified",
+                Spec::IfAccepted(_) => "if-accepted",
             };
             run.class(&format!("parse:{}:{}", st, got.tag()), || json!({"text": s, "got": got.show()}));
             if let Out::Panic(p) = &got {
@@ -399,6 +403,18 @@ pub fn run(run: &mut Run) {
             }
             match spec {
                 Spec::Unspecified => {}
+                Spec::IfAccepted(v) => {
+                    run.validated();
+                    match &got {
+                        Out::Err(_) => {}
+                        Out::Val(g) if ns_of(g) == Some(v) => {}
+                        other => run.fail(
+                            &format!("C15|parse|if-accepted|{}|got={}", if s.starts_with('+') { "plus-sign" } else { "go-form" }, other.tag()),
+                            format!("duration({:?}) is accepted and gave {}; the only value it can denote is {} ns", s, other.show(), v),
+                            json!({"text": s}),
+                        ),
+                    }
+                }
                 Spec::MustAccept(v) => {
                     run.validated();
                     run.nontrivial();
